@@ -8,6 +8,7 @@ import Drv
 
 structure DState where
   topic : Drv.Topic.St := {}
+  session : Drv.Session.St := {}
 
 def dispatch (st : DState) (line : String) : DState × String :=
   let toks := (line.splitOn " ").filter (· ≠ "")
@@ -16,6 +17,10 @@ def dispatch (st : DState) (line : String) : DState × String :=
   | "tree" :: rest =>
     match Drv.Topic.handle st.topic rest with
     | some (t, out) => ({ st with topic := t }, out)
+    | none => (st, "bad-op")
+  | "sess" :: rest =>
+    match Drv.Session.handle st.session rest with
+    | some (t, out) => ({ st with session := t }, out)
     | none => (st, "bad-op")
   | _ => (st, "bad-op")
 
